@@ -166,6 +166,14 @@ def cases():
         ("null-index-read", "int[] za = {1, 2}; echo(za[null]);", "int[] za = {1, 2}; echo(za[0]);"),
         ("null-index-write", "int[] za = {1, 2}; za[null] = 3;", "int[] za = {1, 2}; za[0] = 3;"),
         ("null-indexed", "echo(null[0]);", "int[] za = {1}; echo(za[0]);"),
+        ("class-reference-into-int-array-element", "int[] za = {1, 2}; za[0] = new Vm();", "int[] za = {1, 2}; za[0] = 3;"),
+        ("array-into-int-array-element", "int[] za = {1, 2}; int[] zb = {3}; za[0] = zb;", "int[] za = {1, 2}; int[] zb = {3}; za[0] = zb[0];"),
+        ("int-into-class-array-element", "Vm[] zv = {new Vm()}; zv[0] = 5;", "Vm[] zv = {new Vm()}; zv[0] = new Vm();"),
+        ("string-into-float-array-element", "float[] zf = {1.5f}; zf[0] = \"s\";", "float[] zf = {1.5f}; zf[0] = 2.5f;"),
+        ("assignment-value-wrong-type-initialiser", "float zf = 0.5f; int zx = (zf = 1.5f); echo(zx);", "float zf = 0.5f; float zy = (zf = 1.5f); echo(zy);"),
+        ("assignment-value-wrong-type-argument", "float zf = 0.5f; takesInt(zf = 1.5f);", "int zi = 1; takesInt(zi = 2);"),
+        ("assignment-value-long-into-int", "long zl = 1L; int zx = (zl = 5); echo(zx);", "long zl = 1L; long zy = (zl = 5); echo(zy);"),
+        ("element-assignment-value-as-int", "int[] za = {1, 2}; int zx = (za[0] = 5); echo(zx);", "int[] za = {1, 2}; int[] zc = (za[0] = 5); echo(zc[0]);"),
         ("null-array-argument", "echo(takesArr(null));", "int[] za = {1}; echo(takesArr(za));"),
         ("null-array-argument-method", "Vm vm = new Vm(); echo(vm.arr(null));", "Vm vm = new Vm(); int[] za = {1}; echo(vm.arr(za));"),
         ("null-array-assign", "int[] za = {1}; za = null;", "int[] za = {1}; za = {2};"),
@@ -286,6 +294,10 @@ def cases():
             "class RH { public final int ff; public constructor(int a) -> RH { this.ff = 1; return this; } }"),
            ("final-field-in-for-in-constructor", "class RH { public final int ff; public constructor(int a) -> RH { for (int i = 0; i < 1; i = i + 1) { this.ff = 1; } return this; } }",
             "class RH { public final int ff; public constructor(int a) -> RH { this.ff = 1; return this; } }"),
+           ("final-field-in-for-increment-in-constructor", "class RH { public final int ff; public constructor(int a) -> RH { for (int i = 0; i < 3; ff = i) { i = i + 1; } return this; } }",
+            "class RH { public final int ff; public constructor(int a) -> RH { int k = 0; for (int i = 0; i < 3; k = i) { i = i + 1; } ff = k; return this; } }"),
+           ("final-field-in-for-increment-via-this-in-constructor", "class RH { public final int ff; public constructor(int a) -> RH { for (int i = 0; i < 3; this.ff = i) { i = i + 1; } return this; } }",
+            "class RH { public final int ff; public constructor(int a) -> RH { int k = 0; for (int i = 0; i < 3; k = i) { i = i + 1; } this.ff = k; return this; } }"),
            ("final-field-in-loop-in-constructor", "class RH { public final int ff; public constructor(int a) -> RH { while (a < 1) { this.ff = 1; a = a + 1; } return this; } }",
             "class RH { public final int ff; public constructor(int a) -> RH { this.ff = 1; return this; } }"),
            ("final-field-never-initialised", "class RH { public final int ff; public constructor() -> RH { return this; } }",
